@@ -63,6 +63,9 @@ def gen_cases(tier, seed):
         if SH.has_process(tree):
             big.append({'kind': 'stop', 'name': name, 'tree': tree, 'workload': 'abandoned-stream', 'cycles': 2, 'pending': 300, 'pad': 200_000,
                         'mode': 'sync', 'seed': rng.randrange(1 << 30)})
+            # the same under AsyncServer (its shutdown path is separate code), with enough pending input to fill the pipes
+            big.append({'kind': 'stop', 'name': name, 'tree': tree, 'workload': 'abandoned-stream', 'cycles': 2, 'pending': 200, 'pad': 20_000,
+                        'mode': 'async', 'seed': rng.randrange(1 << 30)})
     if tier == 'quick':
         thr_s = [c for c in start if not SH.has_process(c['tree'])]
         prc_s = [c for c in start if SH.has_process(c['tree'])]
@@ -71,7 +74,7 @@ def gen_cases(tier, seed):
         for lst in (prc_s, prc_e, big):
             rng.shuffle(lst)
         must = {'seqPT', 'seqPP', 'P3b', 'ensTP', 'seq-ensP'}  # multi-worker process stage upstream of another reader, process ensemble members
-        bigq = [c for c in big if c['name'] in must]
+        bigq = [c for c in big if c['name'] in must and c['mode'] == 'sync'] + [c for c in big if c['mode'] == 'async' and c['name'] in ('P2', 'seqPT', 'seqPP', 'seq-ensP')]
         cases = thr_s + prc_s[:14] + thr_e + prc_e[:12] + bigq
     else:
         cases = start + stop + big
